@@ -756,6 +756,7 @@ def undefine_unused_variables(source: str, preserve: Collection[str] = frozenset
     class_body_blacklist = set()
     for scope in core.walk(root, ast.ClassDef):
         for node in core.filter_nodes(scope.body, (ast.Assign, ast.AnnAssign, ast.AugAssign)):
+            class_body_blacklist.add(node)
             class_body_blacklist.update(parsing.assignment_targets(node))
 
     # `_` is an ordinary variable for a program that reads it (`_ = gettext.gettext; _("text")`)
@@ -998,7 +999,11 @@ def delete_pointless_statements(source: str, preserve: Collection[str] = frozens
                 if _evaluation_raises(child):
                     continue  # e.g. int("x") in a try block
 
-                if underscore_is_read and any(core.walk(child, binds_underscore)):
+                # A member `_` of a class is preserved under the name `Class._`
+                keep_underscore = underscore_is_read or (
+                    isinstance(node, ast.ClassDef) and f"{node.name}._" in preserve
+                )
+                if keep_underscore and any(core.walk(child, binds_underscore)):
                     continue
 
                 if i > 0 or not _is_pointless_string(child):  # Docstring
